@@ -96,6 +96,15 @@ CHECKS = {
             'price relation prescribes, the declared quantity and price, exits are reduce-only and on the closing side; after every strategy step the active stop-loss/take-profit orders map injectively into '
             'the rows of the latest declaration, none remains once the position is closed; resting entries are cancelled exactly when should_cancel_entry() answered yes.',
             'Flat candles, so only routing decides what fills. Within 1e-9 of the threshold either type is accepted.', 'DESIGN.md 3/C10'),
+    'C13': ('lattice', 'exhaustive enumeration of a candle-word tree (one-step-extension check on every edge) and of every prefix cut of structured stems, for every sequential indicator and parameter variant',
+            'For each of the 168 indicators that return a series: (i) all words over 3 candle shapes up to depth 6 (quick) / 8 (thorough) with small-window parameters - every tree edge compares f(w.a)[:len(w)] with f(w), '
+            'which by transitivity is the full prefix property for every word and cut; (ii) six structured 300-candle stems with default, alternative-window and non-default source parameters - the series on every prefix '
+            'k is compared with the prefix of the series on the whole input. Each indicator runs in its own forked child, so native crashes of numba kernels on short inputs are recorded instead of killing the run.',
+            'NaN-aware comparison, relative tolerance 1e-9; minmax exempt in its last `order` positions. Indicators are discovered by introspection; anything not callable is listed as uncovered in the evidence.', 'DESIGN.md 3/C13'),
+    'C14': ('lattice', 'exhaustive enumeration of indicator x parameter variant x source type x input length (below/at/above the 240 warm-up window) x stem against the three agreement clauses',
+            'All 174 public indicators with default, small-window and alternative-window parameters and every accepted source type are evaluated on lengths 100..480 around the warm-up window: every sequential field has one '
+            'entry per candle; up to the window the last sequential entry equals the non-sequential result; beyond it the non-sequential result equals the sequential result on the trailing 240 candles.',
+            'Clause (b) is demanded up to the warm-up window only (beyond it the non-sequential path slices, and (c) applies). Tolerance 1e-9 relative.', 'DESIGN.md 3/C14'),
 }
 
 NOT_APPLICABLE = {}
